@@ -152,6 +152,16 @@ where
                         bad = Some((x, "evaluator(descending)", e, d));
                     }
                 }
+                // up again after the long descent, then a zig-zag of jumps (the same evaluator all along)
+                let zig: Vec<f64> = alpha.iter().cloned().chain((0..alpha.len()).map(|i| if i % 2 == 0 { alpha[(i * 7) % alpha.len()] } else { alpha[alpha.len() - 1 - (i * 3) % alpha.len()] })).collect();
+                for &x in &zig {
+                    let d = probe.evaluate(x);
+                    let e = ev_p.evaluate(x);
+                    let _ = ev_t.evaluate(x);
+                    if !bits_eq(d, e) && bad.is_none() {
+                        bad = Some((x, "evaluator(ascending again / zig-zag)", e, d));
+                    }
+                }
                 bad
             });
             cx.evals(alpha.len() as u64 * 8);
@@ -338,7 +348,7 @@ pub fn check(thorough: bool, _seed: u64) -> Check {
     };
     Check {
         id: "C19",
-        rule: "choice tree over byte strings: each leaf is one byte string fed to the real Arbitrary impl of Piecewise<T>; Ok values are evaluated at every x of A(ends) directly, through a fresh PiecewiseEvaluator (ascending then descending history) and through evaluate_v; non-trivial = input decoding to a function with >= 2 pieces".into(),
+        rule: "choice tree over byte strings: each leaf is one byte string fed to the real Arbitrary impl of Piecewise<T>; Ok values are evaluated at every x of A(ends) directly, through a fresh PiecewiseEvaluator (one history: ascending, descending, ascending again, then a zig-zag of jumps) and through evaluate_v; non-trivial = input decoding to a function with >= 2 pieces".into(),
         assumptions: vec!["arbitrary 1.4.2 decoding of Vec<f64> (used only to classify inputs, never for the verdict)".into()],
         phases: vec![all_bytes, patterns, structured, long],
         extra: Default::default(),
